@@ -595,7 +595,8 @@ pub fn generate(p: &GenParams, out: &mut Out) {
         }
         // Dense / layered graphs for the cost of build().
         "dense" => {
-            let max_k = if thorough { 18 } else { 14 };
+            let cap = if p.max_n > 0 { p.max_n } else { usize::MAX };
+            let max_k = std::cmp::min(cap, if thorough { 18 } else { 14 });
             let mut idx = 0;
             let mut over = false;
             for n in 2..=max_k {
@@ -641,6 +642,9 @@ pub fn generate(p: &GenParams, out: &mut Out) {
                     break;
                 }
                 let n = wd * d;
+                if n > cap {
+                    continue;
+                }
                 for variant in 0..2 {
                     let mut e = Vec::new();
                     for l in 0..(d - 1) {
@@ -673,6 +677,9 @@ pub fn generate(p: &GenParams, out: &mut Out) {
                     break;
                 }
                 let n = 3 * k + 1;
+                if n > cap {
+                    continue;
+                }
                 let mut e = Vec::new();
                 for q in 0..k {
                     let a = 3 * q + 1;
@@ -704,6 +711,9 @@ pub fn generate(p: &GenParams, out: &mut Out) {
                     let wd = 2 + rng.below(3);
                     let d = 4 + rng.below(if thorough { 10 } else { 7 });
                     let n = wd * d;
+                    if n > cap {
+                        continue;
+                    }
                     let mut perm: Vec<usize> = (1..=n).collect();
                     for a in (1..n).rev() {
                         let b = rng.below(a + 1);
@@ -744,7 +754,7 @@ pub fn generate(p: &GenParams, out: &mut Out) {
                 if over {
                     break;
                 }
-                let n = 6 + rng.below(if thorough { 11 } else { 8 });
+                let n = std::cmp::min(cap, 6 + rng.below(if thorough { 11 } else { 8 }));
                 let dens = *rng.pick(&[50u64, 70, 90]);
                 let e = random_dag(&mut rng, n, dens, false);
                 if !sel.take() {
